@@ -69,11 +69,26 @@ def _call(block):
     t0 = time.time()
     try:
         r = _WORK(block)
-    except Exception as e:  # harness error: report loudly, never silently drop a block
+    except Exception as e:  # never silently drop a block
         import traceback
         r = BlockResult()
-        r.notes.append("HARNESS-ERROR in block %r: %s\n%s" % (block, e, traceback.format_exc()))
-        r.stats["harness_errors"] += 1
+        tb = traceback.extract_tb(e.__traceback__)
+        repo = os.path.realpath(os.environ.get("VERIF_REPO", "/repo")) + os.sep
+        in_lib = [f for f in tb if os.path.realpath(f.filename).startswith(repo)]
+        if in_lib:
+            # the library itself raised something no check anticipated: that is a finding about
+            # the code under test, not a harness fault
+            last = in_lib[-1]
+            r.violation({"category": "unexpected-library-exception", "exc": type(e).__name__},
+                        {"block": list(block) if isinstance(block, tuple) else block},
+                        f"unexpected {type(e).__name__}: {e} raised from "
+                        f"{os.path.relpath(last.filename, repo)}:{last.lineno} ({last.name}) while "
+                        f"running block {block!r}")
+            r.notes.append("library exception in block %r: %s" % (block, e))
+        else:
+            r.notes.append("HARNESS-ERROR in block %r: %s\n%s" % (block, e,
+                                                                 traceback.format_exc()))
+            r.stats["harness_errors"] += 1
     r.stats["block_s_max"] = max(r.stats.get("block_s_max", 0), int((time.time() - t0) * 1000))
     return r
 
